@@ -410,3 +410,124 @@ Proof.
   destruct Gt as [a Ha], Gd as [b Hb].
   replace ((t + n * d) * 1000) with ((a + n * b) * ts) by nia. rewrite Ha, Hb, !Z.div_mul by lia. reflexivity.
 Qed.
+
+(** ** The repaired changeTimelineTimescale (boundaries converted one by one) *)
+(** contiguity of a segment list: a segment that is not a reset starts where the previous one ends *)
+Fixpoint chain (prev : option Z) (segs : list tseg) : Prop :=
+  match segs with
+  | [] => True
+  | (b, st, D) :: r => (b = true \/ prev = Some st) /\ chain (Some (st + D)) r
+  end.
+
+Lemma rle_r_nonneg segs : Forall (fun s => 0 <= se_r s) (rle segs).
+Proof.
+  induction segs as [|[[b st] D] rest IH]; cbn [rle]; [constructor|].
+  destruct (rle rest) as [|[t' D' r] more] eqn:E.
+  - constructor; [cbn; lia|constructor].
+  - destruct t'.
+    + constructor; [cbn; lia|exact IH].
+    + inversion IH; subst. cbn [se_r] in *.
+      destruct (D' =? D).
+      * constructor; [cbn [se_r]; lia|assumption].
+      * constructor; [cbn [se_r]; lia|]. constructor; [cbn [se_r]; assumption|assumption].
+Qed.
+
+Definition t0_of (T : option Z) (t : Z) : Z := match T with Some x => x | None => t end.
+
+Lemma expand_single T D more t :
+  expand t ({| se_t := T; se_d := D; se_r := 0 |} :: more) = (t0_of T t, D) :: expand (t0_of T t + D) more.
+Proof.
+  cbn [expand se_t se_d se_r]. change (Z.to_nat (0 + 1)) with 1%nat. cbn [runs app]. unfold t0_of.
+  do 2 f_equal. lia.
+Qed.
+
+Lemma expand_succ T D r more t : 0 <= r ->
+  expand t ({| se_t := T; se_d := D; se_r := r + 1 |} :: more) =
+  (t0_of T t, D) :: expand (t0_of T t + D) ({| se_t := None; se_d := D; se_r := r |} :: more).
+Proof.
+  intros Hr. cbn [expand se_t se_d se_r]. fold (t0_of T t).
+  replace (Z.to_nat (r + 1 + 1)) with (S (Z.to_nat (r + 1))) by lia.
+  cbn [runs app]. f_equal. f_equal. f_equal. lia.
+Qed.
+
+(** run-length compression loses nothing: reading the compressed timeline gives the segments back *)
+Lemma expand_rle segs : forall prev t, chain prev segs -> (prev = Some t \/ prev = None) ->
+  expand t (rle segs) = map (fun x : tseg => let '(_, st, D) := x in (st, D)) segs.
+Proof.
+  induction segs as [|[[b st] D] rest IH]; intros prev t Hc Hp; [reflexivity|].
+  cbn [chain] in Hc. destruct Hc as [Hb Hrest].
+  assert (Ht0 : t0_of (if b then Some st else None) t = st).
+  { unfold t0_of. destruct b; [reflexivity|]. destruct Hb as [Hb|Hb]; [discriminate|]. destruct Hp as [Hp|Hp]; congruence. }
+  specialize (IH (Some (st + D)) (st + D) Hrest (or_introl eq_refl)).
+  cbn [rle map].
+  pose proof (rle_r_nonneg rest) as Hnn.
+  destruct (rle rest) as [|[t' D' r] more] eqn:E.
+  - rewrite expand_single, Ht0. f_equal. exact IH.
+  - destruct t' as [x|].
+    + rewrite expand_single, Ht0. f_equal. exact IH.
+    + inversion Hnn as [|? ? Hr _]; subst. cbn [se_r] in Hr.
+      destruct (D' =? D) eqn:ED.
+      * assert (D' = D) by lia. subst D'.
+        rewrite expand_succ by exact Hr. rewrite Ht0. f_equal. exact IH.
+      * rewrite expand_single, Ht0. f_equal. exact IH.
+Qed.
+
+Lemma chain_app a : forall prev b, chain prev a ->
+  chain (match a with [] => prev | _ => let '(_, st, D) := last a (true, 0, 0) in Some (st + D) end) b ->
+  chain prev (a ++ b).
+Proof.
+  induction a as [|[[f st] D] r IH]; intros prev b Ha Hb; [exact Hb|].
+  cbn [app chain] in *. destruct Ha as [H1 H2]. split; [exact H1|].
+  apply IH; [exact H2|]. destruct r as [|y r']; [exact Hb|exact Hb].
+Qed.
+
+Lemma reps_chain sc n : forall fl t d prev, (fl = true \/ prev = Some (sc t)) ->
+  chain prev (map (conv sc) (reps n fl t d)).
+Proof.
+  induction n as [|n IH]; intros fl t d prev H; [exact I|].
+  cbn [reps map conv chain]. split; [exact H|].
+  apply IH. right. f_equal. lia.
+Qed.
+
+Lemma reps_last sc n fl t d : n <> O ->
+  (let '(_, st, D) := last (map (conv sc) (reps n fl t d)) (true, 0, 0) in st + D) = sc (t + Z.of_nat n * d).
+Proof.
+  revert fl t. induction n as [|n IH]; intros fl t Hn; [congruence|].
+  destruct n as [|k].
+  - cbn [reps map conv last]. replace (t + Z.of_nat 1 * d) with (t + d) by lia. lia.
+  - change (reps (S (S k)) fl t d) with ((fl, t, d) :: reps (S k) false (t + d) d).
+    cbn [map]. change (last (conv sc (fl, t, d) :: map (conv sc) (reps (S k) false (t + d) d)) (true, 0, 0))
+      with (last (map (conv sc) (reps (S k) false (t + d) d)) (true, 0, 0)).
+    rewrite IH by congruence. f_equal. lia.
+Qed.
+
+Lemma segments_chain sc l : forall first t prev, (first = true \/ prev = Some (sc t)) ->
+  chain prev (map (conv sc) (segments_from first t l)).
+Proof.
+  induction l as [|s rest IH]; intros first t prev H; [exact I|].
+  cbn [segments_from]. rewrite map_app.
+  set (fl := match se_t s with Some _ => true | None => first end).
+  set (t0 := match se_t s with Some x => x | None => t end).
+  assert (Hfl : fl = true \/ prev = Some (sc t0)).
+  { subst fl t0. destruct (se_t s); [now left|exact H]. }
+  apply chain_app.
+  - apply reps_chain. exact Hfl.
+  - destruct (Z.to_nat (se_r s + 1)) as [|k] eqn:En.
+    + cbn [reps map]. apply IH. rewrite Z.mul_0_l, Z.add_0_r. exact Hfl.
+    + pose proof (reps_last sc (S k) fl t0 (se_d s) ltac:(congruence)) as HL.
+      destruct (map (conv sc) (reps (S k) fl t0 (se_d s))) as [|y ys] eqn:Em; [discriminate|].
+      destruct (last (y :: ys) (true, 0, 0)) as [[f st] D]. apply IH. right. f_equal. exact HL.
+Qed.
+
+(** the repaired changeTimelineTimescale: every listed segment starts at the scaled start of the
+    video segment and lasts until the scaled end, whatever the window and the run-length structure *)
+Theorem timelineB_listed oldTS newTS stl t :
+  expand t (changeTimelineTimescaleB oldTS newTS stl) =
+  map (fun x : tseg => let '(_, st, d) := x in
+         (scale_round oldTS newTS st, scale_round oldTS newTS (st + d) - scale_round oldTS newTS st))
+      (segments_from true 0 stl).
+Proof.
+  unfold changeTimelineTimescaleB.
+  rewrite (expand_rle _ None t); [|apply segments_chain; now left|now right].
+  rewrite map_map. apply map_ext. intros [[b st] d]. reflexivity.
+Qed.
